@@ -147,15 +147,15 @@ def run(ctx, rep):
     tainted, is_doc = doc_taint(ctx, T, fns)
     rep.analysed['tainted_params'] = len(tainted)
     # --- source: literal_to_string trims both ends
-    lts = ctx.fn('literal_to_string', file='parser.rs')
-    txt = json.dumps(lts['tail']) + json.dumps([m['arms'] for m in lts['matches']])
-    full_trim = '"f": "trim"' in txt or ' . trim ()' in txt or '.trim()' in txt.replace(' ', '')
-    pca = ctx.fn('parse_comment_attrs', file='parser.rs')
-    ptxt = json.dumps(pca['calls']) + json.dumps(pca['matches'])
-    rep.check('"doc"' in ptxt, 'X1', 'source:parse_comment_attrs', 'one string per #[doc = ..] attribute', 'parse_comment_attrs no longer selects the `doc` attribute values', {'file': pca['file'], 'line': pca['line']})
-    through_helper = '"f": "expr_to_string"' in ptxt
-    direct_trim = '"f": "trim"' in ptxt
-    source_trimmed = (through_helper and full_trim) or direct_trim
+    # asked of the inlined view of parse_comment_attrs — whichever helpers turn the attribute value into a string
+    # (expr_to_string → literal_to_string on the pinned tree, one `string_literal_value` elsewhere) are expanded
+    from .. import inline
+    pca0 = ctx.fn('parse_comment_attrs', file='parser.rs')
+    pca = inline.view(ctx, pca0, depth=4, force=('expr_to_string', 'literal_to_string'))
+    ptxt = json.dumps(pca['calls']) + json.dumps(pca['matches']) + json.dumps(pca.get('tail'))
+    rep.check('"doc"' in ptxt or "'doc'" in ptxt, 'X1', 'source:parse_comment_attrs', 'one string per #[doc = ..] attribute', 'parse_comment_attrs no longer selects the `doc` attribute values', {'file': pca['file'], 'line': pca['line']})
+    source_trimmed = '"f": "trim"' in ptxt
+    lts = pca0
     sinks = 0
     line_unsplit = False
     for f in fns:
